@@ -83,7 +83,7 @@ func c08Event(r *rand.Rand, tag string, base int64) *mocrelay.Event {
 
 func TestVerif_C08(t *testing.T) {
 	rep := vk.NewReport(t, "C08", "exploration")
-	rep.Rule = "NewMergeHandler over 2-5 (one handler in sixty: 60-109) scripted children; an event shared by several children is handed out as the same object or as equal copies; per REQ each child plays a seeded script: stored events (sorted or not, matching or not, shared with other children), its EOSE, then live events carrying unique (child, sequence) marks, with seeded yields/sleeps; timestamps come from a ten-second window that usually starts at 1000 and sometimes at 0, below 0, at either end of the int64 range, or is replaced by timestamps spread over the whole range; the client issues 1-6 REQs per session, CLOSEs at seeded points (before/around/after the EOSE), re-uses a subscription id only after its EOSE; child emissions and client receipts are stamped on one logical clock and judged offline per (sub id, generation): exactly one EOSE after every child's own (none when a child had received the CLOSE before the last child EOSE was sent), pre-EOSE events are child emissions that match the filters, pairwise distinct, non-increasing in created_at, at most n for a single filter with limit n, post-EOSE emissions all arrive equal and in child order; non-trivial = a generation with at least two children that emitted events; distinct = distinct (children, EOSE order, drop reasons, close class) signatures"
+	rep.Rule = "NewMergeHandler over 2-5 (one handler in sixty: 60-109) scripted children; an event shared by several children is handed out as the same object or as equal copies; per REQ each child plays a seeded script: stored events (sorted or not, matching or not, shared with other children), its EOSE, then live events carrying unique (child, sequence) marks, with seeded yields/sleeps; timestamps come from a ten-second window that usually starts at 1000 and sometimes at 0, below 0, at either end of the int64 range, or is replaced by timestamps spread over the whole range; the client issues 1-6 REQs per session, CLOSEs at seeded points (before/around/after the EOSE), re-uses a subscription id only after its EOSE; child emissions and client receipts are stamped on one logical clock and judged offline per (sub id, generation): exactly one EOSE after every child's own (none when a child had received the CLOSE before the last child EOSE was sent), pre-EOSE events are child emissions that match the filters, pairwise distinct, non-increasing in created_at, at most n for a single filter with limit n, post-EOSE emissions all arrive equal and in child order; added later: filters with two tag conditions or a present-but-empty list; one session in three has a second REQ with an id of its own pending at the same time; something due but absent after the barrier is waited for (bounded) before it is called missing; non-trivial = a generation with at least two children that emitted events; distinct = distinct (children, EOSE order, drop reasons, close class) signatures"
 	defer rep.Finish()
 	pc := &pointCtl{sleep: true, only: "merge."}
 	mocrelay.SetVerifPoint(pc.fn)
